@@ -21,6 +21,7 @@
 package iterator
 
 import (
+	"fmt"
 	"reflect"
 	"sort"
 
@@ -41,6 +42,23 @@ type Context struct {
 	// Per-root-iterator data
 	EventReceiver        events.DataEventReceiver
 	TryAddLocalReference TryAddLocalReference
+	depth                uint64
+}
+
+// Every cycle in a value goes through a pointer, a slice or a map. Without
+// recursion support a cyclic value would be walked until the stack runs out,
+// so the walk is bounded by the maximum container depth.
+func (_this *Context) descend() {
+	_this.depth++
+	if _this.depth > _this.Configuration.Rules.MaxContainerDepth {
+		_this.depth = 0
+		panic(fmt.Errorf("exceeded max depth of %v while iterating (cyclic data requires recursion support)",
+			_this.Configuration.Rules.MaxContainerDepth))
+	}
+}
+
+func (_this *Context) ascend() {
+	_this.depth--
 }
 
 func (_this *Context) NotifyNil() {
